@@ -115,3 +115,65 @@ func VpHOracle() {
 		}
 	}
 }
+
+// H-ORACLE (managed mode): the caller chooses read and commit timestamps, in any order (commit
+// timestamps need not increase in call order), and raises the discard timestamp at any time.
+// Real: oracle.newCommitTs, hasConflict, setDiscardTs, cleanupCommittedTransactions,
+// discardAtOrBelow, doneCommit. Preconditions of managed mode (documented with SetDiscardTs /
+// asserted by the code itself): a commit timestamp is >= the discard timestamp in force, and no
+// transaction reads below the discard timestamp.
+func VpHOracleManaged() {
+	vpConfig("defer-asserts", 1)
+	o := newOracle(Options{DetectConflicts: true, managedTxns: true})
+	o.isManaged = true
+	nT := vpParam("oraclem.txns", 3)
+	type done struct {
+		cts    uint64
+		writes []uint64
+	}
+	var accepted []done
+	discard := uint64(0)
+	for i := 0; i < nT; i++ {
+		if vpChoose("raise-discard", 2) == 1 {
+			d := vpU64("discardTs")
+			vpAssume(vpAnd(d >= discard, d < 1<<62))
+			discard = d
+			o.setDiscardTs(d)
+			vpCover("oraclem.discard-raised")
+			vpAssert(o.discardAtOrBelow() == d, "C36,C13:oraclem.discard-is-callers")
+		}
+		t := &Txn{update: true, conflictKeys: map[uint64]struct{}{}}
+		t.readTs = vpU64("readTs")
+		t.commitTs = vpU64("commitTs")
+		vpAssume(vpAnd(t.readTs >= discard, t.readTs < 1<<62))
+		vpAssume(vpAnd(t.commitTs >= discard, t.commitTs < 1<<62))
+		nr := 1 + vpChoose("nreads", 2)
+		for r := 0; r < nr; r++ {
+			t.reads = append(t.reads, vpU64("read"))
+		}
+		w := vpU64("write")
+		t.conflictKeys[w] = struct{}{}
+
+		// reference: an accepted commit above our snapshot wrote a fingerprint we read
+		expect := false
+		for _, a := range accepted {
+			hit := false
+			for _, r := range t.reads {
+				for _, aw := range a.writes {
+					hit = vpOr(hit, r == aw)
+				}
+			}
+			expect = vpOr(expect, vpAnd(a.cts > t.readTs, hit))
+		}
+		cts, conflict := o.newCommitTs(t)
+		vpAssert(conflict == expect, "C02,C36:oraclem.conflict-iff-overlap")
+		if conflict {
+			vpCover("oraclem.rejected")
+			continue
+		}
+		vpCover("oraclem.committed")
+		vpAssert(cts == t.commitTs, "C36,C03:oraclem.commit-ts-is-callers")
+		o.doneCommit(cts)
+		accepted = append(accepted, done{cts: cts, writes: []uint64{w}})
+	}
+}
